@@ -3,6 +3,7 @@
 (*  {tid, classes:[name |-> class record], events:[...]}                                            *)
 (*   provided  : c, n, terms   - what a recording provider handed to the rule (must be the truth:   *)
 (*               this validates the harness, a mismatch is reported as FIXTURE, not as a violation)  *)
+(*   contract  : kind, parent, children, maps, n - the strategy contract of a fixture rule (Contracts.tla)   *)
 (*   kept      : c, n, terms   - the same provider object after the rule used it                     *)
 (*   formterms : form, c (the form's parent), n, terms - computed by the rule form from providers    *)
 (*   reads     : form, level, shifts, reqs, selfreqs  - what the computation of `level` asked for    *)
@@ -10,7 +11,7 @@
 (*               (partial: only some parameter values were asked for)                                *)
 (*   maps      : kind, c, children, obj, parts (<<>> = None), back                                   *)
 (*   draw      : see Sampling.tla                                                                    *)
-EXTENDS WordUniverse, Counting, Sampling, Json, IOUtils
+EXTENDS WordUniverse, Counting, Sampling, Contracts, Json, IOUtils
 Traces == ndJsonDeserialize(IOEnv.TRACE_FILE)
 VARIABLES t, l
 vars == <<t, l>>
@@ -37,6 +38,7 @@ MapsClause(tr, e) ==
     [] OTHER -> "ok"
 Clause(tr, e) ==
   CASE e.op = "provided" -> IF ObservedTerms(e.terms) = TrueTerms(tr.classes[e.c], e.n) THEN "ok" ELSE "FIXTURE:ProviderHandsOutTheTruth"
+    [] e.op = "contract" -> ContractClause(tr.classes, e)
     [] e.op = "kept" -> IF ObservedTerms(e.terms) = TrueTerms(tr.classes[e.c], e.n) THEN "ok" ELSE "RuleLeavesTheEnumerationsItWasGivenUnchanged"
     [] e.op = "formterms" -> IF ObservedTerms(e.terms) = TrueTerms(tr.classes[e.c], e.n) THEN "ok" ELSE "RuleFormCountsItsParentCorrectly"
     [] e.op = "reads" -> ReadClause(e)
